@@ -47,3 +47,7 @@ func FillEntropy(p []byte) {
 		}
 	}
 }
+
+// SetInactiveUUIDCounter positions the deterministic crypto/rand stream used outside
+// executions, so that a harness can make uuid.NewV4 produce a chosen id again.
+func SetInactiveUUIDCounter(n uint64) { inactiveUUID = n }
